@@ -1,7 +1,10 @@
 /-
   Driver.Config — line protocol of the `config` sub-harness (C15).
 
-    scenario := ["CF" | "OA" n (pathhex node)^n] opt* ("IN" opt*)* "|" path*
+    scenario := ["EV" n (namehex value)^n] ["CF" | "OA" n (pathhex node)^n] opt* ("IN" opt*)* "|" path*
+                 `EV` = n variables the harness puts into the ENVIRONMENT of the process for the duration of the scenario
+                 (value: hex, or `*` = as the process has it).  The effective configuration is a function of the loader
+                 outputs alone (`Ioc.Config` has no environment): the prefix is checked for its form and dropped (`dropEnv`)
                  `OA` = the process command line holds these n `--app.config=path=value` arguments: the output of the
                  default ArgsLoader(os.Args) every new App starts with (`St.appCmd`)
                  `IN` = "Initialize now": the options before the first `IN` (all of them when there is none) are the
@@ -207,8 +210,21 @@ def pCmdline (fuel : Nat) : Toks → Option (List (Path × Cfg) × Toks)
     | none => none
   | _ => none
 
+/-- a leading `EV n (namehex value)^n`: the environment of the process.  The model has no environment — the loaders alone
+    determine the configuration —, so the 2n tokens are dropped; none = malformed -/
+def dropEnv : Toks → Option Toks
+  | "EV" :: n :: r =>
+    match n.toNat? with
+    | some k =>
+      let vars := r.take (2 * k)
+      if vars.length = 2 * k && vars.all (fun t => t = "*" || (fromHex t).isSome) then some (r.drop (2 * k)) else none
+    | none => none
+  | toks => some toks
+
 def handle (line : String) : String :=
-  let toks0 := line.splitOn " "
+  match dropEnv (line.splitOn " ") with
+  | none => "bad-line"
+  | some toks0 =>
   let bare := toks0.head? = some "CF"
   let cmd := toks0.head? = some "OA"
   let fuel0 := 2 * toks0.length + 4
